@@ -90,9 +90,10 @@ func c20Canon(devs []input.Device, idAgree map[string]bool) []c20Group {
 			g.Handlers = append(g.Handlers, h.DeviceInfo.Name)
 		}
 		sort.Strings(g.Handlers)
-		if idAgree[d.Phys] {
-			g.ID = fmt.Sprintf("%04x:%04x:%04x:%04x", d.ID.Bus, d.ID.Vendor, d.ID.Product, d.ID.Version)
-		}
+		// the identifier of the device (it selects the configuration and the blacklist entry) is part of the result, also when
+		// the handlers at one location do not agree on it
+		g.ID = fmt.Sprintf("%04x:%04x:%04x:%04x", d.ID.Bus, d.ID.Vendor, d.ID.Product, d.ID.Version)
+		_ = idAgree
 		out = append(out, g)
 	}
 	sort.Slice(out, func(i, j int) bool {
